@@ -30,7 +30,7 @@ from harness.core import REPO, Ctx, corpus, crash_name, show
 
 ID = "C01"
 GEN = ["FrontEnd"]
-LEAN_PROPS = ["AasVerif.Props.C01"]
+LEAN_PROPS = ["AasVerif.Props.C01", "AasVerif.Props.C01Cores"]
 
 TAIL = '\n\n__version__ = "dummy"\n__xml_namespace__ = "https://dummy.com"\n'
 
